@@ -413,7 +413,14 @@ func parserFaults(c *simkit.Choices, x *simkit.Ctx) *simkit.Violation {
 	if x.Thorough && c.N(3) == 0 {
 		o.Budget, o.MaxStr = 30, 300
 	}
-	doc := common.GenDoc(c, f, o, 1)
+	nvals := 1
+	if c.N(4) == 0 {
+		// a stream: the failing event may belong to a later document, after
+		// the parser went through its end-of-value bookkeeping
+		nvals = 2 + c.N(2)
+		o.TopContainer = c.Bool()
+	}
+	doc := common.GenDoc(c, f, o, nvals)
 	data := doc.Bytes
 	sc := &Scenario{Side: "visitor", Target: string(f) + "-parser", Doc: hex.EncodeToString(data)}
 	sc.Entry = parserEntries[c.N(len(parserEntries))]
@@ -448,10 +455,19 @@ func parserFaults(c *simkit.Choices, x *simkit.Ctx) *simkit.Violation {
 		case "reader":
 			_, err := cd.ParseReader(&simkit.Reader{Data: buf, Sizes: sc.Reads, Clock: &x.Clock}, vs)
 			return err
-		case "decoder-bytes":
-			return cd.NewBytesDecoder(buf, vs).Next()
 		default:
-			return cd.NewDecoder(&simkit.Reader{Data: buf, Sizes: sc.Reads, Clock: &x.Clock}, sc.BufSize, vs).Next()
+			var dec common.Decoder
+			if sc.Entry == "decoder-bytes" {
+				dec = cd.NewBytesDecoder(buf, vs)
+			} else {
+				dec = cd.NewDecoder(&simkit.Reader{Data: buf, Sizes: sc.Reads, Clock: &x.Clock}, sc.BufSize, vs)
+			}
+			for i := 0; i < nvals; i++ {
+				if err := dec.Next(); err != nil {
+					return err // (also io.EOF: the stream holds nvals values, so it is the visitor's)
+				}
+			}
+			return nil
 		}
 	}
 	// dry run
